@@ -204,6 +204,10 @@ func TestHarness(t *testing.T) {
 				}
 			}
 		}
+	case "convert":
+		for _, c := range RunConvert(r, job.N) {
+			emit(c)
+		}
 	case "config":
 		// C08: one seeded workload under every configuration
 		for i := 0; i < job.N; i++ {
